@@ -117,7 +117,9 @@ var (
 	extPool = []uint64{0, 1, 0xdeadbeefcafe, 0xffffffffffffffff, 0x8000000000000000, 0x00000000ffffffff, 0xc000123458}
 )
 
-func isSNaN32(b uint64) bool { return b&0x7f800000 == 0x7f800000 && b&0x007fffff != 0 && b&0x00400000 == 0 }
+func isSNaN32(b uint64) bool {
+	return b&0x7f800000 == 0x7f800000 && b&0x007fffff != 0 && b&0x00400000 == 0
+}
 func isSNaN64(b uint64) bool {
 	return b&0x7ff0000000000000 == 0x7ff0000000000000 && b&0x000fffffffffffff != 0 && b&0x0008000000000000 == 0
 }
@@ -809,16 +811,17 @@ func witnessCases() []*e2eCase {
 		return &e2eCase{P: p, R: r, VP: vp, VR: vr, Signed: signed, Style: style}
 	}
 	return []*e2eCase{
-		mk(nil, []byte{tI32}, nil, []uint64{0xffffffff}, []bool{true}, "reflect"),                          // F5
+		mk(nil, []byte{tI32}, nil, []uint64{0xffffffff}, []bool{true}, "reflect"),                                   // F5
 		mk([]byte{tF32}, []byte{tF32}, []uint64{0x7fa00001}, []uint64{0x7fa00001}, []bool{false, false}, "reflect"), // F6
+		mk([]byte{tI64}, []byte{tI32}, []uint64{0xaaaaaaaa00000000}, []uint64{5}, []bool{false, false}, "gofunc"),   // F24
 	}
 }
 
 func runE2E(r *rand.Rand) {
 	ctx := context.Background()
-	nRandom, maxArity, nVals := 25, 20, 2
+	nRandom, maxArity, nVals := 80, 20, 3
 	if hx.Thorough() {
-		nRandom, maxArity, nVals = 250, 40, 6
+		nRandom, maxArity, nVals = 800, 40, 6
 	}
 	sigs := genSignatures(r, nRandom, maxArity)
 	var cases []*e2eCase
